@@ -1,6 +1,7 @@
 SPECIFICATION Spec
 CONSTANTS Atoms = {"a", "b", "c"}
  FullConn = 2
+ RepFull = FALSE
  MaxConn = 2
 INVARIANT RefTheoremValid
 INVARIANT RefEquisat
